@@ -173,13 +173,29 @@ Theorem C06_orbital_closed_form : forall j0 j1 i0 w0 o0, tol0 <= Rabs i0 ->
   = VTuple [ang (fst (fst o)); ang (snd (fst o)); ang (snd o)].
 Proof. exact (fun j0 j1 i0 w0 o0 => orb_closed J2000 j0 j1 i0 w0 o0 jde2000_eq). Qed.
 
-(* ... and the zero-inclination branch: i = eta, node = Pi + p + 180 *)
+(* ... and the zero-inclination branch, by the sign of the stored eta (E = dms_sec (eta_as T t)):
+   forward interval: i = eta, node = Pi + p + 180 (Meeus); backward: i = -eta, node = Pi + p;
+   null rotation: the input orientation (orb_out0_pos / _neg / _null in C06_orb.v) *)
 Theorem C06_orbital_zero_branch : forall j0 j1 w0 o0,
   let T := cen J2000 j0 in let t := cen j0 j1 in
-  let o := orb_out0 (eta_as T t) (pi_as T t) (p_as T t) w0 o0 in
-  f_orbital_equinox2equinox Rops (ep j0) (ep j1) (ang 0) (ang w0) (ang o0)
-  = VTuple [ang (fst (fst o)); ang (snd (fst o)); ang (snd o)].
-Proof. exact (fun j0 j1 w0 o0 => orb_closed0 J2000 j0 j1 w0 o0 jde2000_eq). Qed.
+  (0 < dms_sec (eta_as T t) ->
+     let o := orb_out0_pos (eta_as T t) (pi_as T t) (p_as T t) w0 o0 in
+     f_orbital_equinox2equinox Rops (ep j0) (ep j1) (ang 0) (ang w0) (ang o0)
+     = VTuple [ang (fst (fst o)); ang (snd (fst o)); ang (snd o)]) /\
+  (dms_sec (eta_as T t) < 0 ->
+     let o := orb_out0_neg (eta_as T t) (pi_as T t) (p_as T t) w0 o0 in
+     f_orbital_equinox2equinox Rops (ep j0) (ep j1) (ang 0) (ang w0) (ang o0)
+     = VTuple [ang (fst (fst o)); ang (snd (fst o)); ang (snd o)]) /\
+  (dms_sec (eta_as T t) = 0 ->
+     let o := orb_out0_null (eta_as T t) (pi_as T t) (p_as T t) w0 o0 in
+     f_orbital_equinox2equinox Rops (ep j0) (ep j1) (ang 0) (ang w0) (ang o0)
+     = VTuple [ang (fst (fst o)); ang (snd (fst o)); ang (snd o)]).
+Proof.
+  exact (fun j0 j1 w0 o0 => conj (orb_closed0_pos J2000 j0 j1 w0 o0 jde2000_eq)
+                           (conj (orb_closed0_neg J2000 j0 j1 w0 o0 jde2000_eq)
+                                 (orb_closed0_null J2000 j0 j1 w0 o0 jde2000_eq))).
+Qed.
+
 
 (* there and back (no proper motion).  Equatorial: EXACTLY the starting direction, for all epochs and
    every declination -- the IAU 1976 polynomials of the reverse trip, zeta(T+t,-t), z(T+t,-t),
